@@ -154,20 +154,39 @@ def r3_join(ctx):
     # reduce_into on the kinds a string cannot produce
     lit = lambda t: C("Literal", C("String", S(t), MAXV))  # noqa: E731
     items = [C("Default"), lit("a"), C("Subkeys", C("None")), lit(""), C("Literal", C("Signed", I(3))), C("Ranges", A("R")), lit("b"),
-             C("ForeignKey", C("Set", lit("z"))), C("Plurals", A("P")), C("Bloc", L(lit("c"), C("Bloc", L(lit("d"))))), CF("Variable", key=A("k"), formatter=A("f")), lit("e")]
+             C("ForeignKey", C("Set", lit("z"))), C("Plurals", A("P")), C("Bloc", L(lit("c"), C("Bloc", L(lit("d"))))), CF("Variable", key=A("k"), formatter=A("f")), lit("e"),
+             CF("Component", key=A("kc"), inner=lit("")), lit("g")]
     ev = mk()
     ev.builtins["reduce"] = lambda rv, a: absint.UNIT
     ev.builtins["into_inner"] = lambda rv, a: rv[2][0] if rv[0] == "ctor" and rv[1] == "Set" and rv[2] else rv
     got = ev.run_fn(ri, [C("Bloc", L(*items)), L()])
     out = ev.last_env.get("bloc") if not isinstance(got, str) else None
     want = L(C("Literal", C("String", S("a3"), MAXV)), C("Ranges", A("R")), C("Literal", C("String", S("bz"), MAXV)), C("Plurals", A("P")), C("Literal", C("String", S("cd"), MAXV)),
-             CF("Variable", key=A("k"), formatter=A("f")), lit("e"))
+             CF("Variable", key=A("k"), formatter=A("f")), lit("e"), CF("Component", key=A("kc"), inner=lit("")), lit("g"))
     if isinstance(got, str):
         r.viol("R3:reduce_into#eval", "reduce_into cannot be evaluated on the mixed bloc: %s" % got, file=PV, line=ri.line)
     elif out != want:
-        r.viol("R3:reduce_into#kinds", "a bloc of [null, `a`, subkeys, ``, 3, range, `b`, $t->`z`, plural, [`c`, [`d`]], var, `e`] reduces to %s, expected %s" % (absint.fmt(out) if out else out, absint.fmt(want)), file=PV, line=ri.line)
+        r.viol("R3:reduce_into#kinds", "a bloc of [null, `a`, subkeys, ``, 3, range, `b`, $t->`z`, plural, [`c`, [`d`]], var, `e`, <kc></kc>, `g`] reduces to %s, expected %s" % (absint.fmt(out) if out else out, absint.fmt(want)), file=PV, line=ri.line)
     else:
-        r.inst("reduce_into", "nulls / subkeys / empty strings dropped, numbers joined as text, resolved references inlined, ranges / plurals / variables kept, nested blocs flattened forward")
+        r.inst("reduce_into", "nulls / subkeys / empty strings dropped, numbers joined as text, resolved references inlined, ranges / plurals / variables / components (also one without content) kept, nested blocs flattened forward")
+    # a value that reduces to nothing (only empty strings / references resolving to "") is the empty *string*: it still defines its
+    # key; it must not become the explicit default (null), which would pull in another locale's text
+    red_fn = funcs.get("ParsedValue::reduce") or ast.fn(PV, "reduce", impl_self="ParsedValue")
+    if red_fn is not None:
+        bad_e = None
+        for label, v0 in (("two empty strings", C("Bloc", L(lit(""), lit("")))), ("an empty bloc", C("Bloc", L())), ("a reference that resolved to the empty string", C("Bloc", L(C("ForeignKey", C("Set", lit("")))))),
+                          ("an empty string and an empty reference", C("Bloc", L(lit(""), C("ForeignKey", C("Set", lit("")))))) ):
+            ev = mk()
+            ev.builtins["into_inner"] = lambda rv, a: rv[2][0] if rv[0] == "ctor" and rv[1] == "Set" and rv[2] else rv
+            g = ev.run_fn(red_fn, [v0])
+            after = ev.last_env.get("self") if not isinstance(g, str) else None
+            okv = after is not None and after[0] == "ctor" and after[1] == "Literal" and after[2] and after[2][0][1] == "String" and after[2][0][2][0] in (S(""), absint.DEFAULT)
+            if not okv and bad_e is None:
+                bad_e = "%s reduces to %s, expected the empty string literal" % (label, g if isinstance(g, str) else absint.fmt(after)[:80])
+        if bad_e:
+            r.viol("R3:reduce#empty-is-a-string", bad_e, file=PV, line=red_fn.line)
+        else:
+            r.inst("reduce (nothing left)", "4 values that reduce to nothing: the empty string literal (the key stays defined), never null")
     fn = ast.fn(PV, "fmt", impl_self="Literal", impl_trait="Display")
     disp_ok = None
     if fn is not None:
